@@ -20,7 +20,7 @@ QUIRKS = []
 
 
 def feat(rng):
-    return RG.Feat(operands=0.5, times_item=0.6, groups=0.3, nots=0.08, group_times=0.7, ogroups=0.25,
+    return RG.Feat(operands=0.5, times_item=0.6, groups=0.3, nots=0.08, group_times=0.7, ogroups=0.25, deref=0.5,
                    max_depth=1, max_spine=rng.choice([1, 2, 3]))
 
 
@@ -102,7 +102,7 @@ def classify(doc, prep, o):
 
 
 def run_shard(ctx):
-    d = drive.Driver(ctx, feat, flags="random", styles=("runs", "runs", "mixed"), quirks=QUIRKS, extra=twin, classify=classify)
+    d = drive.Driver(ctx, feat, flags="random", styles=("runs", "runs", "mixed", "tiny"), quirks=QUIRKS, extra=twin, classify=classify)
     d.loop(3000, 250000)
 
 
